@@ -342,12 +342,14 @@ namespace c16
                     for (unsigned i = 0; i < n; i++)
                         strictlyInside = strictlyInside && x[i] > lo + 1e-9 && x[i] < hi - 1e-9;
                 }
+                bool judgedDespiteFailures = false;
                 bool fallbackGuaranteed = (spk == "atlas" || spk == "tangent") && how != "uniform" && bursts == 0 && strictlyInside &&
                                           con->residual(from) <= tol;
                 if (fallbackGuaranteed && !cause.empty())
                 {
                     res.probes["raw-samples-judged-despite-projection-failures(retry-then-fallback)"]++;
                     cause.clear();
+                    judgedDespiteFailures = true;
                 }
                 if (!cause.empty())
                 {
@@ -357,7 +359,9 @@ namespace c16
                 }
                 else if (!(r <= tol))
                     res.violate(P + ".raw-sample-off-manifold" + sfx + " manifold=" + man + " sampler=" + how,
-                                when + fmt(": sampled state has constraint residual %.3g (tolerance %.3g), although the manifold lies inside the bounds and no projection reported failure", r, con->getTolerance()));
+                                when + fmt(": sampled state has constraint residual %.3g (tolerance %.3g), although %s", r, con->getTolerance(),
+                                           judgedDespiteFailures ? "the sampler falls back to the on-manifold state it was given when its projection attempts fail, and the result does not touch the bounds"
+                                                                 : "the manifold lies inside the bounds and no projection reported failure"));
                 else
                     rawJudged++;
                 h = sim::hashDouble(h, r);
